@@ -9,6 +9,7 @@ import (
 	"strings"
 	"testing"
 	"unicode"
+	"unicode/utf8"
 
 	"golang.org/x/perf/benchfmt"
 	"golang.org/x/perf/benchmath"
@@ -188,7 +189,8 @@ func Check(c Case) (v vcase.Verdict) {
 			}
 		}
 		// regular-expression form, anchored on the written and on the base unit
-		if !strings.ContainsAny(unit, "/") {
+		// (a regular expression is UTF-8 text: a unit with invalid bytes cannot be spelt in one)
+		if !strings.ContainsAny(unit, "/") && utf8.ValidString(unit) {
 			for _, name := range []string{unit, base} {
 				flt, err := benchproc.NewFilter(".unit:/^" + regexp.QuoteMeta(name) + "$/")
 				if err != nil {
@@ -237,7 +239,7 @@ func Check(c Case) (v vcase.Verdict) {
 	return
 }
 
-var comps = []string{"ns", "MB", "B", "bytes", "sec", "s", "op", "GC", "allocs", "nsec", "ans", "MBs", "xMB", "KB", "nsns", "MBMB", "n", "M", "é", "ns·", "widgets"}
+var comps = []string{"ns", "MB", "B", "bytes", "sec", "s", "op", "GC", "allocs", "nsec", "ans", "MBs", "xMB", "KB", "nsns", "MBMB", "n", "M", "é", "ns·", "widgets", "\xe0", "ns\xff"}
 
 func genUnit(t *rapid.T, allowSpace bool) string {
 	if rapid.IntRange(0, 9).Draw(t, "lit") == 0 {
